@@ -500,6 +500,37 @@ def canon_flow(tree):
                 do(st.finalbody, None)
             elif isinstance(st, ast.ClassDef):
                 do(st.body, None)
+            if isinstance(st, ast.While) and isinstance(
+                    st.test, ast.Constant) and st.test.value is True \
+                    and not st.orelse and st.body and isinstance(
+                        st.body[0], ast.If) and not st.body[0].orelse \
+                    and len(st.body[0].body) == 1 and isinstance(
+                        st.body[0].body[0], ast.Break) and len(st.body) > 1:
+                # while True: if c: break; BODY  ->  while not c: BODY
+                st.test = negate(st.body[0].test)
+                del st.body[0]
+                n += 1
+                continue
+            if isinstance(st, FUNC) and len(st.body) > 1 and isinstance(
+                    st.body[-1], ast.Return) and (
+                        st.body[-1].value is None or (isinstance(
+                            st.body[-1].value, ast.Constant)
+                            and st.body[-1].value.value is None)):
+                del st.body[-1]
+                n += 1
+                continue
+            if isinstance(st, ast.If) and st.orelse and _leaves(
+                    st.orelse) and not _leaves(st.body) and not (
+                        len(st.orelse) == 1
+                        and isinstance(st.orelse[0], ast.If)):
+                # `if c: A else: B(leaves)` -> `if not c: B` ; A
+                a = st.body
+                st.test = negate(st.test)
+                st.body = st.orelse
+                st.orelse = []
+                lst[i + 1:i + 1] = a
+                n += 1
+                continue
             if isinstance(st, ast.If):
                 # else after a leaving body
                 if st.orelse and _leaves(st.body) and not (
